@@ -5,7 +5,7 @@
    ([default_dep] = DefaultRecursionLimit + 1 = 10001 group levels). *)
 From Coq Require Import List NArith ZArith.
 From PB Require Import Base.PBytes Base.GoInt Wire.WireModel Wire.WireGrammar Wire.VarintP Wire.ScanP.
-From PB Require Import Gen.WireGo Wire.WireGoP.
+From PB Require Import Gen.WireGo Wire.WireGoP Wire.WireGoLoopP.
 Import ListNotations.
 Open Scope N_scope.
 
@@ -132,6 +132,25 @@ Theorem C02_go_Consume :
 Proof. exact (conj go_ConsumeVarint_spec (conj go_ConsumeTag_spec go_ConsumeBytes_spec)). Qed.
 Print Assumptions C02_go_Consume.
 
+(* ---- Tier T, stage 2: the functions with loops / recursion (consumeFieldValueD,
+   ConsumeFieldValue, ConsumeField, ConsumeGroup incl. its strip loop), translated
+   with fuel-indexed local fixpoints, equal the hand model on every input of
+   Go-representable length: they return [Val] (neither Panic nor Fuel), the
+   model's length or error code, and for ConsumeGroup the model's value ---- *)
+Theorem C02_go_Scanner :
+  (forall num typ bs depth, (-1 <= depth < 2^62 - 1)%Z -> (Z.of_nat (length bs) < 2^63)%Z ->
+     go_consumeFieldValueD (Z.of_N num) (Z.of_N typ) (zbytes bs) depth
+     = Val (zres_n (parse_val (Z.to_nat (depth + 1)) num typ bs) bs)) /\
+  (forall num typ bs, (Z.of_nat (length bs) < 2^63)%Z ->
+     go_ConsumeFieldValue (Z.of_N num) (Z.of_N typ) (zbytes bs) = Val (zres_len (consume_field_value num typ bs))) /\
+  (forall bs, (Z.of_nat (length bs) < 2^63)%Z ->
+     go_ConsumeField (zbytes bs) = Val (zres_field (consume_field bs))) /\
+  (forall num bs, num <= 2147483647 -> (Z.of_nat (length bs) < 2^63)%Z ->
+     go_ConsumeGroup (Z.of_N num) (zbytes bs) = zres_group (consume_group num bs) /\
+     exists res, go_ConsumeGroup (Z.of_N num) (zbytes bs) = Val res).
+Proof. exact go_Scanner_spec. Qed.
+Print Assumptions C02_go_Scanner.
+
 (* the constants of wire.go are those the model uses *)
 Theorem C02_go_constants :
   (c_VarintType = 0 /\ c_Fixed64Type = 1 /\ c_BytesType = 2 /\ c_StartGroupType = 3 /\
@@ -176,3 +195,5 @@ Proof.
 Qed.
 Example C02_ex_go_tag : go_ConsumeTag [0]%Z = Val (0, 0, -2)%Z.
 Proof. apply (proj1 (proj2 C02_go_Consume) [x00]). Qed.
+Example C02_ex_go_field : go_ConsumeField [11; 8; 1; 12; 255]%Z = Val (1, 3, 4)%Z.
+Proof. apply (proj1 (proj2 (proj2 C02_go_Scanner)) [x0b; x08; x01; x0c; xff]). vm_compute. reflexivity. Qed.
